@@ -9,6 +9,7 @@ for `asinh`/`acosh` this needs the invariant of the `sqrt` result (a raw `new_ad
 `PF.ExpHalfRecipInv` (see C15p).
 -/
 import TFV.Lemmas.PanicFree
+import TFV.Properties.C14p
 
 namespace C18p
 open F64 TwoFloat
@@ -47,6 +48,27 @@ theorem atanh_pf_partial (HR : PF.ExpHalfRecipInv) (x : TwoFloat)
       (arithmetic.impl_Sub_TwoFloat_for_f64.sub (f64lit 0x3ff0000000000000) x)).Inv) :
     TwoFloat.atanh.pf x = true :=
   PF.ln_pf HR _ ⟨hq, PF.div_tt_WF _ _⟩
+
+
+/-! ### the same with `PF.ExpHalfRecipInv` discharged (`C14p.expHalfRecipInv`): only the hypothesis on the computed
+argument of `ln` remains -/
+
+theorem acosh_pf_of_sqrt_inv (x : TwoFloat) (hi : x.Inv) (hw : x.WF)
+    (hs : (TwoFloat.sqrt (arithmetic.impl_Sub_f64_for_TwoFloat.sub
+      (arithmetic.impl_Mul_TwoFloat_for_TwoFloat.mul x x) (f64lit 0x3ff0000000000000))).Inv) :
+    TwoFloat.acosh.pf x = true := acosh_pf_partial C14p.expHalfRecipInv x hi hw hs
+
+theorem asinh_pf_of_sqrt_inv (x : TwoFloat) (hi : x.Inv) (hw : x.WF)
+    (hs : (TwoFloat.sqrt (arithmetic.impl_Add_f64_for_TwoFloat.add
+      (arithmetic.impl_Mul_TwoFloat_for_TwoFloat.mul (TwoFloat.abs x) (TwoFloat.abs x))
+      (f64lit 0x3ff0000000000000))).Inv) :
+    TwoFloat.asinh.pf x = true := asinh_pf_partial C14p.expHalfRecipInv x hi hw hs
+
+theorem atanh_pf_of_quot_inv (x : TwoFloat)
+    (hq : (arithmetic.impl_Div_TwoFloat_for_TwoFloat.div
+      (arithmetic.impl_Add_TwoFloat_for_f64.add (f64lit 0x3ff0000000000000) x)
+      (arithmetic.impl_Sub_TwoFloat_for_f64.sub (f64lit 0x3ff0000000000000) x)).Inv) :
+    TwoFloat.atanh.pf x = true := atanh_pf_partial C14p.expHalfRecipInv x hq
 
 /-- the trait entry points -/
 theorem Float_cosh_pf (x : TwoFloat) (hi : x.Inv) (hw : x.WF) :
